@@ -64,6 +64,8 @@ structure CEntry where
   mtime : Int
   hardLink : Bool
   link : Option Bytes
+  devMajor : Nat := 0
+  devMinor : Nat := 0
   deriving Repr, DecidableEq
 
 inductive Action
@@ -141,6 +143,10 @@ def ensureParents (o : ConvOpts) : List TNode → List Bytes → List Bytes → 
 /-- `fstree_add_generic` for a non-root name; `none` = failure (`ENOTDIR`, `EEXIST`, `EINVAL`) -/
 def addGeneric (o : ConvOpts) (t : List TNode) (e : CEntry) : Option (List TNode) :=
   if fmt e.mode = S_IFLNK ∧ e.link.isNone then none                                   -- `EINVAL`
+  -- repaired (`fixes/C04-id-devno-range.patch`): SquashFS stores 32-bit ids and a 12+20 bit device number;
+  -- what does not fit is refused (`ERANGE`) instead of being truncated
+  else if e.uid > 0xFFFFFFFF ∨ e.gid > 0xFFFFFFFF then none
+  else if (fmt e.mode = S_IFBLK ∨ fmt e.mode = S_IFCHR) ∧ ¬ e.hardLink ∧ (e.devMajor ≥ 4096 ∨ e.devMinor ≥ 1048576) then none
   else
     let comps := Sqfs.Path.splitSlash e.name
     match ensureParents o t [] comps with
